@@ -214,12 +214,11 @@ pub fn belt_input(s0: u128, i: u128) -> Vec<u8> {
     s0.wrapping_add(i).wrapping_add(1).to_le_bytes().to_vec()
 }
 
-/// keystream bytes [pos, pos+n) of a counter-style cipher whose block `i` input is `inp(i)`
-pub fn ks_range(p: &Prim, inp: &dyn Fn(u128) -> Vec<u8>, pos: u128, n: usize) -> Vec<u8> {
-    let bs = p.bs as u128;
+/// n keystream bytes starting at byte `off` of block `block` of a counter-style cipher whose block `i` input is `inp(i)`
+pub fn ks_range(p: &Prim, inp: &dyn Fn(u128) -> Vec<u8>, block: u128, off: usize, n: usize) -> Vec<u8> {
     let mut out = Vec::with_capacity(n);
-    let mut i = pos / bs;
-    let mut off = (pos % bs) as usize;
+    let mut i = block;
+    let mut off = off;
     while out.len() < n {
         let mut b = inp(i);
         (p.e)(&mut b);
